@@ -592,6 +592,20 @@ class Executor:
         ext = "sign_extend" if v.s[2] else "zero_extend"
         return Val("((_ %s %d) %s)" % (ext, s[1] - v.s[1], v.t), s)
 
+    def put_at(self, st, key, v):
+        if isinstance(v, Val):
+            st.store[key] = v
+        elif v[0] == "agg":
+            self.copy_aggregate(st, key, v[1].key())
+        elif v[0] == "ref":
+            st.refs[key] = v[1]
+        elif v[0] == "enum":
+            st.store[key + "#discr"] = Val(bvconst(v[2], 64), ("bv", 64, True))
+        elif v[0] == "unit":
+            pass
+        else:
+            raise Untranslatable("aggregate field " + repr(v))
+
     def assign(self, st, fn, dst_text, rhs, frame):
         dst = self.parse_place(st, fn, dst_text, frame)
         dty = self.type_of_place(fn, dst, frame)
@@ -661,10 +675,10 @@ class Executor:
             else:
                 put(Val("(bvneg %s)" % v.t, v.s))
             return
-        m = re.match(r"^(.*) as (.+?) \((\w+)\)$", rhs)
+        m = re.match(r"^(.*) as (.+?) \((\w+)(?:\([\w, ]*\))?\)$", rhs)
         if m:
             v = self.operand(st, fn, m.group(1), frame)
-            if not isinstance(v, Val) and v[0] == "ref" and m.group(3) in ("Transmute", "PtrToPtr", "MutToConstPointer", "Unsize"):
+            if not isinstance(v, Val) and v[0] == "ref" and m.group(3) in ("Transmute", "PtrToPtr", "MutToConstPointer", "Unsize", "PointerCoercion"):
                 st.refs[dst.key()] = v[1]
                 return
             if not isinstance(v, Val) and v[0] == "agg" and m.group(3) == "Transmute" and sort_of_type(m.group(2)) is not None:
@@ -706,28 +720,35 @@ class Executor:
             if len(parts) >= 1 and all(re.match(r"^(copy|move|const) ", p) for p in parts):
                 for i, p in enumerate(parts):
                     v = self.operand(st, fn, p, frame)
-                    if isinstance(v, Val):
-                        st.store[dst.key() + ".%d" % i] = v
-                    elif v[0] == "agg":
-                        self.copy_aggregate(st, dst.key() + ".%d" % i, v[1].key())
-                    elif v[0] == "ref":
-                        st.refs[dst.key() + ".%d" % i] = v[1]
+                    self.put_at(st, dst.key() + ".%d" % i, v)
                 return
         m = re.match(r"^(.+?) \{ (.*) \}$", rhs)
         if m and not rhs.startswith("const"):
             # struct / closure literal with named fields: fields are addressed by index in MIR
             self.clear_prefix(st, dst.key())
+            base = dst.key()
+            em = re.match(r"^(?:[\w:]*::)?(\w+)(?:::<.*>)?::(\w+)$", m.group(1).strip())
+            if em and em.group(1) in self.enums and em.group(2) in self.enums[em.group(1)]:
+                # struct-like enum variant `Enum::Variant { f: .. }`
+                st.store[base + "#discr"] = Val(bvconst(self.enums[em.group(1)].index(em.group(2)), 64), ("bv", 64, True))
+                base = base + "@" + em.group(2)
+            elif em and em.group(1) in KNOWN_ENUMS:
+                raise Untranslatable("struct-like variant of " + em.group(1))
             for i, part in enumerate(split_top(m.group(2))):
                 fm = re.match(r"^(\w+): (.*)$", part)
                 if not fm:
                     raise Untranslatable("struct literal field: " + part)
                 v = self.operand(st, fn, fm.group(2), frame)
-                if isinstance(v, Val):
-                    st.store[dst.key() + ".%d" % i] = v
-                elif v[0] == "agg":
-                    self.copy_aggregate(st, dst.key() + ".%d" % i, v[1].key())
-                elif v[0] == "ref":
-                    st.refs[dst.key() + ".%d" % i] = v[1]
+                self.put_at(st, base + ".%d" % i, v)
+            return
+        m = re.match(r"^\[(.*); (\d+)\]$", rhs)
+        if m and int(m.group(2)) <= 64:
+            v = self.operand(st, fn, m.group(1), frame)
+            if not isinstance(v, Val):
+                raise Untranslatable("array repeat of aggregates")
+            self.clear_prefix(st, dst.key())
+            for i in range(int(m.group(2))):
+                st.store[dst.key() + "[%d]" % i] = v
             return
         m = re.match(r"^\[(.*)\]$", rhs)
         if m:
@@ -754,14 +775,7 @@ class Executor:
                 base = dst.key() + "@" + variant
             for i, p in enumerate(split_top(m.group(3))):
                 v = self.operand(st, fn, p, frame)
-                if isinstance(v, Val):
-                    st.store[base + ".%d" % i] = v
-                elif v[0] == "agg":
-                    self.copy_aggregate(st, base + ".%d" % i, v[1].key())
-                elif v[0] == "ref":
-                    st.refs[base + ".%d" % i] = v[1]
-                elif v[0] == "enum":
-                    st.store[base + ".%d#discr" % i] = Val(bvconst(v[2], 64), ("bv", 64, True))
+                self.put_at(st, base + ".%d" % i, v)
             return
         m = re.match(r"^([\w:]+?)(?:::<.*>)?::(\w+)$", rhs)
         if m:
